@@ -14,10 +14,10 @@ package main
 //   "" fresh empty buffer   E emptied buffer (x[:0])   N nil/absent buffer   ? unknown
 
 import (
-	"os"
 	"fmt"
 	"go/token"
 	"go/types"
+	"os"
 	"sort"
 	"strings"
 
